@@ -1,5 +1,5 @@
 import Tea.Proofs.Inline
-import Tea.Proofs.LifecycleRank
+import Tea.Proofs.LifecycleExec
 /-
 Helper lemmas for C07 (the final view on quit: `write`, `flush`, `stop` = flush + EL2 + CR on
 an inline terminal) and C18 (signals in the Lifecycle LTS; the renderer's reaction to a
@@ -263,19 +263,6 @@ end Tea.Render
 /-! ## C18: signals in the Lifecycle LTS -/
 namespace Tea.Runtime.Life
 
-/-- the loop never leaves `exited`, along any schedule -/
-theorem el_exited_runLabels {c : Cause} : ∀ (ls : List Label) {s s' : St},
-    runLabels s ls = some s' → s.el = .exited c → s'.el = .exited c := by
-  intro ls
-  induction ls with
-  | nil => intro s s' h he; simp only [runLabels] at h; cases h; exact he
-  | cons l ls ih =>
-    intro s s' h he
-    simp only [runLabels] at h
-    split at h
-    · rename_i s1 h1; exact ih h (el_exited_stable h1 he)
-    · cases h
-
 /-- a signal taken by the handler goroutine while the loop is in its `select`, then received by
 the loop: the handler has exited and the loop has ended with the signal's cause -/
 theorem signal_taken {s : St} (hsig : s.sig = .waiting) (hign : s.ignoreSignals = false)
@@ -292,50 +279,31 @@ theorem runTail_err {s s' : St} (hs : step s .runTail = some s') {c : Cause}
   · cases hs; exact ⟨rfl, rfl⟩
   · cases hs
 
-/-- the configuration the start-up steps read is the one the program was started with -/
+/-- the configuration the start-up steps read is the one the program was started with (the
+ignore-signals flag is NOT among these facts: ReleaseTerminal / RestoreTerminal write it, see
+`inv_sig` in `Tea/Proofs/LifecycleExec.lean`) -/
 theorem inv_config {c : Config} {s : St} (hr : Reachable c s) :
-    s.ignoreSignals = c.ignoreSignals ∧ s.withSignalHandler = c.withSignalHandler ∧
+    s.withSignalHandler = c.withSignalHandler ∧
     s.withResize = c.withResize ∧ s.withInitCmd = c.withInitCmd ∧ s.withInput = c.withInput ∧
     s.cancelable = c.cancelable := by
-  refine reachable_induct (fun s => s.ignoreSignals = c.ignoreSignals ∧
+  refine reachable_induct (fun s =>
     s.withSignalHandler = c.withSignalHandler ∧ s.withResize = c.withResize ∧
     s.withInitCmd = c.withInitCmd ∧ s.withInput = c.withInput ∧ s.cancelable = c.cancelable)
-    ⟨rfl, rfl, rfl, rfl, rfl, rfl⟩ ?_ hr
+    ⟨rfl, rfl, rfl, rfl, rfl⟩ ?_ hr
   intro s s' l _ ih hs
   step_cases hs l
   all_goals exact ih
-
-/-- the ignore-signals flag is fixed by the configuration -/
-theorem inv_ignoreSignals {c : Config} {s : St} (hr : Reachable c s) :
-    s.ignoreSignals = c.ignoreSignals := (inv_config hr).1
 
 /-- without a signal handler there is never a handler goroutine -/
 theorem inv_no_handler {c : Config} (hc : c.withSignalHandler = false) {s : St}
     (hr : Reachable c s) : s.sig = .absent := by
   refine reachable_induct (fun s => s.sig = .absent) (by simp [init0]) ?_ hr
   intro s s' l hrs ih hs
-  have hw : s.withSignalHandler = false := by rw [(inv_config hrs).2.1, hc]
+  have hw : s.withSignalHandler = false := by rw [(inv_config hrs).1, hc]
   step_cases hs l
   all_goals first
     | exact ih
     | (simp_all; done)
-
-/-- while signals are ignored the handler goroutine never holds a signal to forward -/
-theorem inv_ignored_not_sending {c : Config} (hc : c.ignoreSignals = true) {s : St}
-    (hr : Reachable c s) : ∀ b, s.sig ≠ .sending b := by
-  have key : ∀ {s : St}, Reachable c s → (s.ignoreSignals = true ∧ ∀ b, s.sig ≠ .sending b) := by
-    intro s hr
-    refine reachable_induct (fun s => s.ignoreSignals = true ∧ ∀ b, s.sig ≠ .sending b) ?_ ?_ hr
-    · refine ⟨hc, ?_⟩
-      intro b
-      simp [init0]
-    · intro s s' l _ ih hs
-      step_cases hs l
-      all_goals first
-        | exact ih
-        | (simp_all; done)
-        | (refine ⟨ih.1, fun b => ?_⟩; split <;> simp_all)
-  exact (key hr).2
 
 /-- the terminal has been restored at least once when Run's shutdown is done, hence when Run
 has returned from it - every return but the one after a failed `initTerminal`, which comes before
